@@ -890,7 +890,7 @@ def run_cases(ctx, cases, model_ok, tag="gen"):
             if (site, slug) in seen:
                 continue
             seen.add((site, slug))
-            small = shrink_case(case, slug) if tag != "exhaustive" or True else case
+            small = shrink_case(case, slug)
             ctx.violation(site, slug, small, detail=detail)
         if tag == "gen":
             ctx.sample({"class": case["class"], "route": case["route"], "build": case["build"][:3], "edits": case["edits"][:2],
